@@ -85,7 +85,7 @@ Theorem arn_reorth_relation (eps bt : F) n (Vs : seq (seq F)) i1 (w : seq F) fue
   (forall j, (j < size Vs)%N -> size (nth [::] Vs j) = n) -> size Vs = i1 ->
   size f = n -> size h = i1 -> size Vf = i1 -> krel n Vs w f h ->
   let '(f', h', beta') := arn_reorth O eps fuel n Vs i1 bt f h beta Vf err in
-  (f' = nseq n 0 /\ beta' = 0) \/ krel n Vs w f' h'.
+  (f' = nseq n 0 /\ beta' = 0) \/ (krel n Vs w f' h' /\ size h' = i1).
 Proof.
 elim: fuel => [|fuel IH] f h beta Vf err sz sV sf sh sVf rel /=; first by right.
 case: ifP => _; last by right.
@@ -100,4 +100,76 @@ apply: IH => //.
   rewrite sh sVf sV => /(_ erefl erefl) ->. exact: rel.
 Qed.
 
+
+(* Lanczos three-term recurrence of the model (the two `map ... combine` statements of lanczos_step): A v_i = beta v_(i-1) + alpha v_i + f *)
+Theorem lanczos_recurrence n (w u v : seq F) (beta alpha : F) r : size w = n -> size u = n -> size v = n -> (r < n)%N ->
+  let w' := List.map (fun p : F * F => p.1 - beta * p.2) (List.combine w u) in
+  let f := List.map (fun p : F * F => p.1 - alpha * p.2) (List.combine w' v) in
+  beta * nth 0 u r + alpha * nth 0 v r + nth 0 f r = nth 0 w r.
+Proof.
+move=> sw su sv rn /=; rewrite !combineE !mapE.
+have s1 : size [seq p.1 - beta * p.2 | p <- zip w u] = n by rewrite size_map size_zip sw su minnn.
+rewrite (nth_map (0, 0)) ?size_zip ?s1 ?sv ?minnn // nth_zip ?s1 ?sv //=.
+rewrite (nth_map (0, 0)) ?size_zip ?sw ?su ?minnn // nth_zip ?sw ?su //=.
+by ring.
+Qed.
+
+(* ---- one whole Arnoldi step of the model: whichever way the new basis vector v_i was obtained (normalised residual, or a fresh direction
+   after a breakdown), the new column i of H and the new residual satisfy  A v_i = sum_(j<=i) H(j,i) v_j + f  - or the residual was dropped *)
+Lemma nth_mapi_sel (c : seq F) j (l : seq (seq F)) off k : (k < size l)%N ->
+  nth [::] (mapi_from off (fun jj c0 => if PeanoNat.Nat.eqb jj j then c else c0) l) k = if (off + k)%N == j then c else nth [::] l k.
+Proof.
+elim: l off k => [|a l IH] off [|k] //= kl; first by rewrite addn0 eqbE.
+by rewrite IH // addSnnS.
+Qed.
+Lemma size_mapi_from' A B k (g : nat -> A -> B) l : size (mapi_from k g l) = size l.
+Proof. by elim: l k => [|x l IH] k //=; rewrite IH. Qed.
+Lemma nth_msetcol (M : seq (seq F)) j c k : (k < size M)%N -> nth [::] (msetcol O M j c) k = if k == j then c else nth [::] M k.
+Proof. by move=> kM; rewrite /msetcol /mapi nth_mapi_sel // add0n. Qed.
+Lemma size_msetcol (M : seq (seq F)) j c : size (msetcol O M j c) = size M.
+Proof. by rewrite /msetcol /mapi; elim: M 0%N => [|a M IH] off //=; rewrite IH. Qed.
+
+Theorem arnoldi_step_column (near0 eps l717 : F) (Arows : seq (seq F)) n m bt i (Fc : fac O) cnt :
+  size Arows = n -> (i < m)%N -> size (fV O Fc) = m -> (forall j, (j < m)%N -> size (nth [::] (fV O Fc) j) = n) -> size (fH O Fc) = m ->
+  let '(F', cnt') := arnoldi_step O near0 eps l717 Arows n m bt i (Fc, cnt) in
+  let v := nth [::] (fV O F') i in
+  size v = n ->
+  (ff O F' = nseq n 0 /\ fbeta O F' = 0) \/
+  krel n (take i.+1 (fV O F')) (apply_op O Arows v) (ff O F') (take i.+1 (nth [::] (fH O F') i)).
+Proof.
+move=> sA im sV sc sH; rewrite /arnoldi_step.
+case: (if Ops.ltb O (fbeta O Fc) near0 then _ else _) => [[[f beta] cnt1] restart].
+set v := vdivs O f beta. set V := set_col O (fV O Fc) i v.
+set w := apply_op O Arows v.
+set Vs := List.firstn i.+1 V. set h := adjoint_product O V i.+1 w.
+have sVv : size V = m by rewrite /V /set_col size_msetcol.
+have nV k : (k < m)%N -> nth [::] V k = if k == i then v else nth [::] (fV O Fc) k.
+  by move=> km; rewrite /V /set_col nth_msetcol ?sV.
+have eVs : Vs = take i.+1 V by rewrite /Vs firstnE.
+have sVs : size Vs = i.+1 by rewrite eVs size_take sVv; case: ltnP => //; lia.
+case E: (if Ops.ltb O _ _ then _ else _) => [[f2 h2] beta2] /=.
+rewrite /set_col nth_msetcol ?sV // eqxx => sv.
+have sM : size (mset O (fH O Fc) i (i - 1)%coq_nat (if restart then 0 else beta)) = m by rewrite /mset /mapi size_mapi_from' sH.
+rewrite nth_msetcol ?sM // eqxx.
+have szVs : forall j, (j < size Vs)%N -> size (nth [::] Vs j) = n.
+  move=> j; rewrite sVs => ji; rewrite eVs nth_take // nV; last by lia.
+  by case: eqP => // _; apply: sc; lia.
+have sw : size w = n by rewrite /w /apply_op mapE size_map.
+have sh : size h = i.+1 by rewrite /h /adjoint_product mapE size_map firstnE size_take sVv; case: ltnP => //; lia.
+have rel0 : krel n Vs w (vsub2 O w (lincomb O n Vs h)) h by move=> r rn; exact: gs_relation.
+have pad_take (hh : seq F) : size hh = i.+1 -> take i.+1 (pad O m hh) = hh.
+  by move=> s1; rewrite /pad appE take_size_cat.
+have fin : (f2 = nseq n 0 /\ beta2 = 0) \/ (krel n Vs w f2 h2 /\ size h2 = i.+1).
+  move: E; case: ifP => _.
+  - by case=> <- <- _; right.
+  - have sl : size (lincomb O n Vs h) = n by rewrite /lincomb size_lincomb_from repeatE size_nseq.
+    have sf0 : size (vsub2 O w (lincomb O n Vs h)) = n by rewrite /vsub2 combineE size_map size_zip sw sl minnn.
+    have sVf : size (adjoint_product O V i.+1 (vsub2 O w (lincomb O n Vs h))) = i.+1.
+      by rewrite /adjoint_product mapE size_map firstnE size_take sVv; case: ltnP => //; lia.
+    move=> E.
+    have := @arn_reorth_relation eps bt n Vs i.+1 w 5 _ _ (norm O (vsub2 O w (lincomb O n Vs h))) _ (maxabs O (adjoint_product O V i.+1 (vsub2 O w (lincomb O n Vs h)))) szVs sVs sf0 sh sVf rel0.
+    by rewrite E.
+case: fin => [[-> ->]|[rel s2]]; first by left.
+by right; rewrite -eVs pad_take.
+Qed.
 End A.
